@@ -15,10 +15,8 @@ echo "== suite with patch"; (go build ./... && go test -vet=off -count=1 -timeou
 go test -vet=off -count=1 -timeout 25m ./... >/tmp/mut/_suite_$id.log 2>&1; suite=$?
 echo "suite exit=$suite"
 echo "== demo with patch (must fail): $democmd"; (eval "$democmd") >/tmp/mut/_demo_with_$id.log 2>&1; dw=$?; tail -5 /tmp/mut/_demo_with_$id.log; echo "exit=$dw"
-git stash -q -u -- . ':!_seeded' 2>/dev/null || { git diff > /tmp/mut/_p_$id.diff; git checkout -q -- .; }
-git checkout -q -- . 2>/dev/null
-# copy demo test files back if they were placed in package dirs (they are untracked -> stashed). restore untracked only
-git stash pop -q 2>/dev/null; git checkout -q -- .
+# remove the patch again (no git stash: refs/stash is shared by all worktrees of /repo)
+git diff > /tmp/mut/_p_$id.diff; git checkout -q -- .
 echo "== demo without patch (must pass)"; (eval "$democmd") >/tmp/mut/_demo_without_$id.log 2>&1; dwo=$?; tail -3 /tmp/mut/_demo_without_$id.log; echo "exit=$dwo"
 if [ $suite -eq 0 ] && [ $dw -ne 0 ] && [ $dwo -eq 0 ]; then
   mkdir -p $out; cp -r /tmp/mut/_keep_$id/. $out/
